@@ -11,7 +11,7 @@ from .common import viol, short_exc, exc_site, solve_arrays
 PROPERTY = "C17"
 RULE = ("E3: 5 LP portfolios (contracts; + storage; + transport with a cost series; + multi-commodity; + structured asset with internal "
         "variables) x every present/future boundary 1..T-1 (T = 4, thorough also 6) x all multisets of 1..3 future price patterns out "
-        "of 7 (incl. all identical and identical to the base); present prices shared; distinct = canonical case; non-trivial = the "
+        "of 7 (incl. all identical and identical to the base); present prices shared; robust optimisation of tiny problems (4 / 6 variables) with 1..n+1 samples, i.e. also as many samples as variables; distinct = canonical case; non-trivial = the "
         "scenario optima differ (the present decision matters)")
 ASSUMPTIONS = ["scenario set = the problem's own prices + the samples (as documented: the original future counts as a further sample)",
                "EEV_j, wait-and-see mean, the extensive form of the two-stage problem and the max-min problem are solved by HiGHS on EAO's own arrays "
@@ -148,7 +148,60 @@ def run_cost_asset(case):
 
 
 def grid_json(T):
+    if T in (2, 3):   # the small grids of the robust family
+        return dict(start="2021-01-01T00:00", end="2021-01-02T00:00" if T == 2 else "2021-01-02T12:00", freq="12h", mtu="h", tz=None)
     return dict(start="2021-01-01T00:00", end="2021-01-02T00:00" if T == 4 else "2021-01-02T12:00", freq="6h", mtu="h", tz=None)
+
+
+def run_robust_small(case):
+    """robust optimisation of tiny problems with every number of samples around the number of variables (incl. equal):
+    the worst case of the returned solution over the samples equals the exact max-min optimum (epigraph LP on the arrays)"""
+    from mc import impl
+    import scipy.sparse as sp
+    res = dict(status="ok", violations=[], counters={})
+    V = res["violations"]
+    T = case["T"]
+    nS = len(case["futures"])
+    tags = ["robust_small", "pf:" + case["pf"], "T:%d" % T, "S:%d" % nS]
+    mkt = dict(type="SimpleContract", name="mkt", nodes=["n1"], price="p", min_cap=-5.0, max_cap=5.0)
+    sup = dict(type="SimpleContract", name="sup", nodes=["n1"], price="q", min_cap=0.0, max_cap=3.0)
+    sto = dict(type="Storage", name="sto", nodes=["n1"], size=20.0, cap_in=1.0, cap_out=1.0, start_level=5.0, end_level=5.0)
+    scn = dict(grid=grid_json(T), prices={}, assets={"two": [mkt, sup], "sto": [mkt, sto], "three": [mkt, sup, sto]}[case["pf"]])
+    P0 = prices_for(T, 0, None)
+    samples = [prices_for(T, 0, f) for f in case["futures"]]
+    try:
+        pf, tg, _ = impl.build(scn)
+        op = pf.setup_optim_problem(P0, tg)
+        arr = impl.problem_arrays(op)
+        csamp = pf.create_cost_samples(samples, tg)
+        n = len(arr["c"])
+        tags.append("square" if nS == n else "non_square")
+        rr = op.optimize(target="robust", samples=csamp, solver="SCIPY")
+    except Exception as e:
+        V.append(viol("c17.raises", "robust optimisation of a small problem raises %s at %s" % (short_exc(e), exc_site()), tags, ["robust_small", "raises"]))
+        return res
+    if isinstance(rr, str):
+        V.append(viol("c17.robust_status", "robust optimisation reports %r" % rr, tags, ["robust_small"]))
+        return res
+    cs = [np.asarray(c, float) for c in csamp]
+    xr = np.asarray(rr.x, float)
+    wr = min(float(-(c * xr).sum()) for c in cs)
+    Af = sp.csr_matrix(arr["A"])
+    rows = sp.hstack([Af, sp.csr_matrix((Af.shape[0], 1))])
+    epi = sp.csr_matrix(np.array([np.concatenate([-c, [-1.0]]) for c in cs]))
+    cz = np.zeros(n + 1)
+    cz[-1] = -1.0
+    st, x, val = solve_arrays(cz, np.concatenate([arr["l"], [-1e9]]), np.concatenate([arr["u"], [1e9]]), sp.vstack([rows, epi]),
+                              np.concatenate([arr["b"], np.zeros(nS)]), arr["cType"] + "L" * nS)
+    tolr = 1e-6 * (1 + abs(wr))
+    if st == "optimal" and abs(val - wr) > 10 * tolr:
+        V.append(viol("c17.robust_exact", "%d samples, %d variables: worst case of the robust solution %.8f, max-min optimum over the samples %.8f" % (nS, n, wr, val),
+                      tags, ["robust_small", "square" if nS == n else "non_square"]))
+    res["nontrivial"] = bool(np.abs(xr).sum() > 1e-9)
+    res["outcome"] = "robust_small"
+    res["fingerprint"] = "rs=%.4f" % wr
+    res["counters"]["robust_small_square" if nS == n else "robust_small_other"] = 1
+    return res
 
 
 def build_cases(tier):
@@ -169,6 +222,14 @@ def build_cases(tier):
         for win in ("none", "late", "early", "single", "before", "after"):
             for T in Ts:
                 c = dict(cost_asset=kind, window=win, T=T)
+                c["key"] = chash(c)
+                cases.append(c)
+    # robust optimisation of tiny problems: every number of samples from 1 to (number of variables + 1), all subsets of the patterns of that size
+    for pf, T, n in (("two", 2, 4), ("sto", 2, 4), ("two", 3, 6), ("three", 2, 6)):
+        for k in range(1, min(n + 1, len(FUTURES)) + 1):
+            combos = list(itertools.combinations(range(len(FUTURES)), k))
+            for ms in (combos if tier == "thorough" or k == n else combos[::3]):
+                c = dict(robust_small=True, pf=pf, T=T, futures=list(ms))
                 c["key"] = chash(c)
                 cases.append(c)
     stats = dict(explorer="E3 product", states=len(cases), transitions=len(cases) * 4,
@@ -200,6 +261,8 @@ def run_case(case):
     from copy import deepcopy
     if "cost_asset" in case:
         return run_cost_asset(case)
+    if case.get("robust_small"):
+        return run_robust_small(case)
     res = dict(status="ok", violations=[], counters={})
     V = res["violations"]
     T, bd = case["T"], case["boundary"]
